@@ -115,7 +115,8 @@ def h_get_instance(S, B):
     if shape == "Booled":
         falsy = Not(Booled.truth)
     S.known("C09-falsy-instance-is-recreated",
-            And(falsy, Or(And(mode == "single", have_single), And(mode == "session", have_sessionA))))
+            And(falsy, Or(And(mode == "single", have_single), And(mode == "session", have_sessionA))),
+            checks=["single-reuses-the-instance", "single-reuse-creates-nothing", "session-reuses-the-connections-instance", "session-reuse-creates-nothing"])
     creator_ok = creator_kind in ("none", "makes-instance")
     if mode == "bogus":
         S.check("invalid-mode-is-refused", And(exc is not None, n_created == 0))
